@@ -134,6 +134,12 @@ def full_declaration(prop="C18"):
         parts = z3.Concat(a, z3.If(z3.Length(dim) > 0, z3.Unit(SID(dim)), z3.Empty(SI)), z3.If(par, z3.Unit(SID(sv("parameter"))), z3.Empty(SI)))
         return v1._e.to_str(v1._p, res) == z3.Concat(FULLTYPE(v0.self), TAIL(parts, z3.Length(parts)))
     c.ensures("full_type_then_every_attribute_the_dimension_and_parameter_each_after_a_comma", post)
+
+    def frame(v0, res, v1):
+        # a display string is computed, nothing is stored: the variable's own attribute list is what it was (the text is rendered on several pages, twice per page with search on)
+        l = SList(sel(H(v0, "attribs"), v0.self), "str")
+        return z3.And(v1.heap.list_get(l) == v0.heap.list_get(l), H(v1, "attribs") == H(v0, "attribs"), H(v1, "dimension") == H(v0, "dimension"))
+    c.ensures("the_variable_s_own_attribute_list_is_untouched", frame, role="frame")
     c.no_raise = True
     c.z3_timeout_ms, c.cvc5_on_unknown = 8000, True
     return c
